@@ -105,6 +105,9 @@ func c13Scenarios() []goxScenario {
 		goxScenario{Name: "load-csv-unterminated-quote", Files: map[string]string{"bad.csv": "a,b\n1,x\n2,y\n3,\"z\n4,w\n"}, SQL: "SELECT COUNT(*) FROM bad", CPU: 2},
 		goxScenario{Name: "load-ltsv-and-fixed", Files: map[string]string{"l.ltsv": "a:1\tb:2\na:3\tb:4\nbroken\na:5\n", "f.txt": "a  b\n1  x\n2  y\n3  z\n"}, SQL: "SELECT COUNT(*) FROM l; SELECT COUNT(*) FROM FIXED('SPACES', `f.txt`);", CPU: 2},
 		goxScenario{Name: "load-jsonl-bad-line", Files: map[string]string{"j.jsonl": "{\"a\":1}\n{\"a\":2}\n{\"a\":\n{\"a\":4}\n"}, SQL: "SELECT COUNT(*) FROM j", CPU: 2},
+		// a file read as an inline table inside a subquery that every worker evaluates
+		goxScenario{Name: "inline-table-in-subquery", FreeRows: 800, Files: map[string]string{"t.csv": big, "u.csv": "a,c\n1,p\n3,q\n5,r\n"},
+			SQL: "SELECT a FROM t WHERE EXISTS (SELECT 1 FROM CSV_INLINE(',', `u.csv`) i WHERE i.a = t.a); SELECT a FROM t WHERE a IN (SELECT a FROM CSV_INLINE(',', `u.csv`)); SELECT a, (SELECT COUNT(*) FROM JSON_INLINE('', '[{\"k\":1}]') j) FROM t;", CPU: 3},
 		goxScenario{Name: "correlated-subquery", Files: map[string]string{"t.csv": big}, SQL: "SELECT a FROM t WHERE EXISTS (SELECT 1 FROM t z WHERE z.g = t.g AND z.a < t.a)", CPU: 3},
 		goxScenario{Name: "error-in-two-records", Files: map[string]string{"t.csv": big}, SQL: "SELECT a, 10 / (b - 3) FROM t", CPU: 3},
 		// built-in functions that keep process-wide state (random source, compiled-pattern, JSON-query and time-zone caches), one call per record on every worker
